@@ -57,6 +57,7 @@ type Facts struct {
 	// Mgr: step fingerprints of the poller-pool functions (C18), see mgrOps
 	Mgr         map[string][]string `json:"mgr,omitempty"`
 	ServerSteps map[string][]string `json:"server_steps,omitempty"` // C13, see server.go
+	ServerRetry RetryFact           `json:"server_retry"`           // C13, EMFILE back-off loop, see server.go
 }
 
 // closeKind classifies a call expression; "" = not a descriptor-closing call.
@@ -383,6 +384,7 @@ func main() {
 	// server / event-loop step lists (C13); must run after the fingerprints: -instr rewrites the AST
 	for _, p := range pkgs {
 		if p.Name == "netpoll" {
+			facts.ServerRetry = retryFacts(p) // before serverFacts: -instr rewrites the AST
 			steps, err := serverFacts(p, *instrDir)
 			if err != nil {
 				fmt.Fprintln(os.Stderr, "server facts:", err)
@@ -390,7 +392,7 @@ func main() {
 			}
 			facts.ServerSteps = steps
 			if *out != "" {
-				if err := writeServerLean(*out, steps); err != nil {
+				if err := writeServerLean(*out, steps, facts.ServerRetry); err != nil {
 					fmt.Fprintln(os.Stderr, err)
 					os.Exit(2)
 				}
